@@ -176,6 +176,12 @@ def m1_accessor_table_agreement(run, data):
               "only", "", "src/saml2_tophat/entity.py", nontrivial=False)
 
 
+def _mentions(cfg, t, text):
+    """does test node t evaluate `text` (temporaries expanded)?"""
+    return any(isinstance(sub, ast.expr) and unparse(sub) == text
+               for e in (t.ast, cfg.ctest(t.id)) for sub in ast.walk(e))
+
+
 def m2_validity_gates(run):
     run.rule("M2", "with check_validity an entity or document whose validUntil "
              "has passed is never stored; no handler around the validity test "
@@ -188,7 +194,7 @@ def m2_validity_gates(run):
                unparse(nd.ast.targets[0]).startswith("self.entity[")]
     run.require(commits, "do_entity_descriptor: commit to self.entity vanished")
     vt = "valid(entity_descr.valid_until)"
-    tests = [t for t in cfg.by_kind("test") if vt in unparse(t.ast)]
+    tests = [t for t in cfg.by_kind("test") if _mentions(cfg, t, vt)]
     key = fi.qual + "::expired=>not-stored"
     if not tests:
         run.violated("M2", key, "validUntil of the entity is no longer tested",
@@ -224,7 +230,7 @@ def m2_validity_gates(run):
                 break
     # to_old bookkeeping + duplicates
     dup = [t for t in cfg.by_kind("test")
-           if unparse(t.ast) == "entity_descr.entity_id in self.entity"]
+           if cfg.same(t.ast, t.id, "entity_descr.entity_id in self.entity")]
     ok = False
     if dup:
         tb = [b for b in cfg.succ[dup[0].id] if cfg.nodes[b].kind == "true"]
@@ -236,17 +242,28 @@ def m2_validity_gates(run):
               "a duplicate entity id can overwrite the stored entity", fi.loc())
     for cmt in commits:
         s = cfg.nodes[cmt].ast
-        run.check(unparse(s.targets[0]) == "self.entity[entity_descr.entity_id]",
+        t0 = s.targets[0]
+        run.check(isinstance(t0, ast.Subscript) and
+                  unparse(t0.value) == "self.entity" and
+                  cfg.same(t0.slice, cmt, "entity_descr.entity_id"),
                   "M6", fi.qual + "::commit-key",
                   "stored under its own entityID", "stored under %s" %
                   unparse(s.targets[0]), fi.loc(s), nontrivial=False)
     # parse(): EntitiesDescriptor
     fp = m.func("mdstore.InMemoryMetaData.parse")
     pcfg = cfg_of(fp, m)
+    # the entities of the document: do_entity_descriptor(x) for x in
+    # self.entities_descr.entity_descriptor
+    loops = [lp for lp in pcfg.by_kind("foriter")
+             if isinstance(lp.ast.target, ast.Name) and
+             pcfg.same(lp.ast.iter, lp.id,
+                       "self.entities_descr.entity_descriptor")]
     calls = [nd.id for nd, c in pcfg.call_nodes("do_entity_descriptor")
-             if unparse(arg_of(c, 0)) == "entity_descr"]
+             if any(isinstance(arg_of(c, 0), ast.Name) and
+                    arg_of(c, 0).id == lp.ast.target.id and
+                    any(x is c for x in ast.walk(lp.ast)) for lp in loops)]
     vt2 = "valid(self.entities_descr.valid_until)"
-    tests = [t for t in pcfg.by_kind("test") if vt2 in unparse(t.ast)]
+    tests = [t for t in pcfg.by_kind("test") if _mentions(pcfg, t, vt2)]
     key = fp.qual + "::expired-document=>ToOld"
     if not tests or not calls:
         run.violated("M2", key, "validUntil of the document is no longer "
@@ -491,6 +508,54 @@ def m7_generator_publishes_every_key(run):
     run.floor("M7", "do_key_descriptor callers", n, 5)
 
 
+def m10_configured_index_published(run):
+    run.rule("M10", "generation side: do_endpoints publishes a configured "
+             "endpoint index unchanged; the running counter is used only when "
+             "the configuration holds NO index - a presence test, not a "
+             "truthiness test (0 is a legal configured index)")
+    m = run.model
+    fi = m.func("metadata.do_endpoints")
+    cfg = cfg_of(fi, m)
+    counters = {nd.ast.target.id for nd in cfg.by_kind("stmt")
+                if isinstance(nd.ast, ast.AugAssign) and
+                isinstance(nd.ast.target, ast.Name)}
+    writes = [nd for nd in cfg.by_kind("stmt")
+              if isinstance(nd.ast, ast.Assign) and
+              isinstance(nd.ast.targets[0], ast.Subscript) and
+              isinstance(nd.ast.targets[0].slice, ast.Constant) and
+              nd.ast.targets[0].slice.value == "index"]
+    run.floor("M10", "index assignments in do_endpoints", len(writes), 2)
+    auto = 0
+    for nd in writes:
+        s = nd.ast
+        cont = unparse(s.targets[0].value)
+        names = {x.id for x in ast.walk(s.value) if isinstance(x, ast.Name)}
+        key = "%s::%s" % (fi.qual, norm_text(s))
+        if names & counters:
+            auto += 1
+            gs = facts(cfg, nd.id)
+            present = [Q("'index' in %s" % cont, False),
+                       Q("%s.get('index') is None" % cont, True)]
+            run.check(any(g in gs for g in present), "M10", key,
+                      "the counter is used only when no index is configured",
+                      "the running counter replaces the index under %s: a "
+                      "configured index that is falsy (0) is not published" %
+                      sorted(g for g in gs if "index" in g[0]), fi.loc(s))
+        else:
+            src = {x for x in ast.walk(s.value)
+                   if isinstance(x, ast.Subscript) and
+                   isinstance(x.slice, ast.Constant) and
+                   x.slice.value == "index"}
+            calls = {call_name(c) for c in ast.walk(s.value)
+                     if isinstance(c, ast.Call)}
+            run.check(bool(src) and calls <= {"str", "int"}, "M10", key,
+                      "the configured index itself (as a string)",
+                      "published index is %s" % unparse(s.value), fi.loc(s))
+    run.check(auto >= 1, "M10", fi.qual + "::auto-index",
+              "unindexed endpoints get the running counter",
+              "no automatic index any more", fi.loc(), nontrivial=False)
+
+
 def check(run):
     run.explanation = (
         "C16: agreement of every accessor's (descriptor, service) keys and of "
@@ -510,6 +575,7 @@ def check(run):
     m4_entity_isolation(run)
     m5_verify_before_serve(run)
     m7_generator_publishes_every_key(run)
+    m10_configured_index_published(run)
     from ..common_rules import memo_rule
     memo_rule(run, "M8", {"mdstore", "metadata", "config"}, "metadata lookups")
     td = run.model.func("mdie.to_dict")
